@@ -6,7 +6,7 @@ use std::cell::RefCell;
 use std::collections::HashMap;
 use std::ffi::OsString;
 use std::path::PathBuf;
-use std::sync::Arc;
+use std::sync::{Arc, Mutex};
 use std::time::Duration;
 
 use serde::{Deserialize, Serialize};
@@ -17,7 +17,7 @@ use watchexec_events::{Event, Priority, Source, Tag};
 use watchexec_signals::Signal;
 
 use crate::child::{finalize_world, ChildSpec};
-use crate::ctx::{log, run_sim, sleep_ms, with_run, Ev, Policy, RunOut, SimOpts, HOUR_MS};
+use crate::ctx::{log, run_sim_main, sleep_ms, with_run, Ev, Policy, RunOut, SimOpts, HOUR_MS};
 use crate::e2::{event_id, SIGNAL_ID_BASE};
 
 #[derive(Clone, Debug, Serialize, Deserialize, PartialEq, Eq, Hash)]
@@ -55,7 +55,7 @@ pub struct E3Scn {
 
 impl E3Scn {
     pub fn argv(&self) -> Vec<String> {
-        let mut v: Vec<String> = vec!["watchexec".into(), "-q".into(), "-n".into(), "-w".into(), "/dev/null".into()];
+        let mut v: Vec<String> = vec!["watchexec".into(), "-q".into(), "-n".into(), "--no-discover-ignore".into(), "-w".into(), "/dev/null".into()];
         match (self.mode.as_str(), self.spelling.as_str()) {
             ("restart", "short") => v.push("-r".into()),
             ("signal", "short") => {}
@@ -141,6 +141,7 @@ fn change_event(id: u32) -> Event {
 thread_local! {
     static BATCH_NO: std::cell::Cell<u32> = const { std::cell::Cell::new(0) };
     static IN_HANDLER: std::cell::Cell<bool> = const { std::cell::Cell::new(false) };
+    static MAIN_DONE: std::cell::Cell<bool> = const { std::cell::Cell::new(false) };
 }
 
 async fn e3_root(scn: E3Scn, args: Args) {
@@ -158,86 +159,112 @@ async fn e3_root(scn: E3Scn, args: Args) {
             return;
         }
     };
-    let cli_config = match watchexec_cli::verif::make_config(&args, &state) {
-        Ok(c) => Arc::new(c),
-        Err(e) => {
-            log(Ev::MainEnd { ok: false, msg: format!("make_config: {e}") });
-            return;
-        }
-    };
-    // the runtime gets a Config whose action handler is the CLI's, wrapped only to record batch delivery
-    let config = Config::default();
-    config.throttle(cli_config.throttle.get());
-    config.pathset(cli_config.pathset.get());
-    config.file_watcher(cli_config.file_watcher.get());
+    // the real run_watchexec() (make_config, the CLI's filterer, runtime creation, start-up event, main loop) runs as
+    // its own task; two observation points (H8) let the harness wrap the handlers in recorders and pick up the
+    // runtime's event queue
+    let driver: DriverSlot = Arc::new(Mutex::new(None));
+    let main_done = Arc::new(tokio::sync::Notify::new());
+    let gave_up = Arc::new(tokio::sync::Notify::new());
+    MAIN_DONE.with(|b| b.set(false));
     {
-        let cli = cli_config.clone();
-        config.on_action_async(move |action| {
-            let ids: Vec<u32> = action.events.iter().map(event_id).collect();
-            let n = BATCH_NO.with(|b| {
-                let v = b.get();
-                b.set(v + 1);
-                v
-            });
-            IN_HANDLER.with(|b| b.set(true));
-            log(Ev::Batch { n, ids, urgent: false });
-            let ret = cli.action_handler.call(action);
-            Box::new(async move {
-                let action = match ret {
-                    ActionReturn::Sync(a) => a,
-                    ActionReturn::Async(f) => Box::into_pin(f).await,
-                };
-                IN_HANDLER.with(|b| b.set(false));
-                log(Ev::BatchEnd { n });
-                action
-            })
-        });
+        let slot = driver.clone();
+        let (main_done, gave_up) = (main_done.clone(), gave_up.clone());
+        let postpone = scn.postpone;
+        let mut scn = Some(scn);
+        watchexec_cli::verif::set_run_observer(Some(watchexec_cli::verif::RunObserver {
+            configured: Box::new(|config: &Config| {
+                let inner = config.action_handler.verif_get();
+                config.on_action_async(move |action| {
+                    let ids: Vec<u32> = action.events.iter().map(event_id).collect();
+                    let n = BATCH_NO.with(|b| {
+                        let v = b.get();
+                        b.set(v + 1);
+                        v
+                    });
+                    IN_HANDLER.with(|b| b.set(true));
+                    log(Ev::Batch { n, ids, urgent: false });
+                    let ret = inner(action);
+                    Box::new(async move {
+                        let action = match ret {
+                            ActionReturn::Sync(a) => a,
+                            ActionReturn::Async(f) => Box::into_pin(f).await,
+                        };
+                        IN_HANDLER.with(|b| b.set(false));
+                        log(Ev::BatchEnd { n });
+                        action
+                    })
+                });
+                let inner_err = config.error_handler.verif_get();
+                config.on_error(move |hook: ErrorHook| {
+                    let mut msg = format!("{}", hook.error);
+                    msg.truncate(200);
+                    log(Ev::RtErr { n: 0, msg });
+                    inner_err(hook);
+                });
+            }),
+            runtime_created: Box::new(move |wx: &Watchexec| {
+                // the driver (the user and the outside world) starts only now: while run_watchexec() assembles its
+                // configuration it canonicalises the project origin on the blocking pool, and whether that finishes
+                // before or after its first poll must not change what is runnable
+                if let Some(scn) = scn.take() {
+                    *slot.lock().unwrap() = Some(tokio::spawn(e3_driver(scn, wx.verif_event_input(), main_done.clone(), gave_up.clone())));
+                }
+                if !postpone {
+                    // the start-up event is sent by run_watchexec() itself, right after this point
+                    log(Ev::EvSend { id: 0, prio: 3, src: 250 });
+                    log(Ev::EvSent { id: 0, ok: true });
+                }
+            }),
+        }));
     }
-    config.on_error(|hook: ErrorHook| {
-        let mut msg = format!("{}", hook.error);
-        msg.truncate(200);
-        log(Ev::RtErr { n: 0, msg });
-    });
-    let wx = match Watchexec::with_config(config) {
-        Ok(wx) => Arc::new(wx),
-        Err(e) => {
-            log(Ev::MainEnd { ok: false, msg: format!("with_config: {e}") });
-            return;
+    // run_watchexec()'s future is not Send (as in production, it is the program's main future): it runs here, in the
+    // root; the driver that plays the user and the outside world is the spawned task
+    {
+        let mut run = Box::pin(watchexec_cli::verif::run(args, state));
+        tokio::select! {
+            biased;
+            r = &mut run => match r {
+                Ok(()) => log(Ev::MainEnd { ok: true, msg: String::new() }),
+                Err(e) => log(Ev::MainEnd { ok: false, msg: format!("{e}") }),
+            },
+            _ = gave_up.notified() => log(Ev::Note { what: "main-never-ended", a: 0, b: 0 }),
         }
-    };
-    // what run_watchexec() does: kick off with an empty urgent event unless postponed
-    if !scn.postpone {
-        log(Ev::EvSend { id: 0, prio: 3, src: 250 });
-        let r = wx.send_event(Event::default(), Priority::Urgent).await;
-        log(Ev::EvSent { id: 0, ok: r.is_ok() });
+        MAIN_DONE.with(|b| b.set(true));
+        main_done.notify_one();
+        watchexec_cli::verif::set_run_observer(None);
+        let h = driver.lock().unwrap().take();
+        if let Some(h) = h {
+            let _ = h.await;
+        }
     }
-    let main = wx.main();
-    let monitor = tokio::spawn(async move {
-        match main.await {
-            Ok(Ok(())) => log(Ev::MainEnd { ok: true, msg: String::new() }),
-            Ok(Err(e)) => log(Ev::MainEnd { ok: false, msg: format!("{e}") }),
-            Err(e) => log(Ev::MainEnd { ok: false, msg: format!("join error: {e}") }),
-        }
-    });
+    finalize_world();
+    log(Ev::Note { what: "scenario-over", a: 0, b: 0 });
+}
+
+type DriverSlot = Arc<Mutex<Option<tokio::task::JoinHandle<()>>>>;
+type Input = async_priority_channel::Sender<Event, Priority>;
+
+async fn e3_driver(scn: E3Scn, input: Input, main_done: Arc<tokio::sync::Notify>, gave_up: Arc<tokio::sync::Notify>) {
+    let finished = || MAIN_DONE.with(|b| b.get());
     let (dummy_tx, _dummy_rx) = mpsc::channel::<RuntimeError>(8);
     for st in &scn.steps {
         if st.gap > 0 {
             sleep_ms(st.gap).await;
         }
-        if monitor.is_finished() {
+        if finished() {
             break;
         }
         match st.kind {
             E3Kind::Change { id } => {
                 log(Ev::EvSend { id, prio: 1, src: 0 });
-                let r = tokio::time::timeout(Duration::from_millis(HOUR_MS), wx.send_event(change_event(id), Priority::Normal)).await;
+                let r = tokio::time::timeout(Duration::from_millis(HOUR_MS), input.send(change_event(id), Priority::Normal)).await;
                 log(Ev::EvSent { id, ok: matches!(r, Ok(Ok(()))) });
             }
             E3Kind::Signal { sig } => {
                 let s = Signal::from(sig);
                 let id = SIGNAL_ID_BASE + sig as u32;
                 log(Ev::EvSend { id, prio: if matches!(s, Signal::Interrupt | Signal::Terminate) { 3 } else { 2 }, src: 100 });
-                let r = tokio::time::timeout(Duration::from_millis(HOUR_MS), watchexec::verif::signal_send_event(dummy_tx.clone(), wx.verif_event_input(), s)).await;
+                let r = tokio::time::timeout(Duration::from_millis(HOUR_MS), watchexec::verif::signal_send_event(dummy_tx.clone(), input.clone(), s)).await;
                 log(Ev::EvSent { id, ok: matches!(r, Ok(Ok(()))) });
             }
         }
@@ -261,21 +288,21 @@ async fn e3_root(scn: E3Scn, args: Args) {
     }
     log(Ev::Note { what: "quiescent", a: 0, b: 0 });
     // final: the user hits Ctrl-C (or the process gets SIGTERM)
-    if !monitor.is_finished() {
+    if !finished() {
         let s = Signal::from(scn.final_signal);
         let id = SIGNAL_ID_BASE + scn.final_signal as u32;
         log(Ev::EvSend { id, prio: 3, src: 201 });
-        let r = tokio::time::timeout(Duration::from_millis(HOUR_MS), watchexec::verif::signal_send_event(dummy_tx.clone(), wx.verif_event_input(), s)).await;
+        let r = tokio::time::timeout(Duration::from_millis(HOUR_MS), watchexec::verif::signal_send_event(dummy_tx.clone(), input.clone(), s)).await;
         log(Ev::EvSent { id, ok: matches!(r, Ok(Ok(()))) });
     }
-    if tokio::time::timeout(Duration::from_millis(HOUR_MS), monitor).await.is_err() {
-        log(Ev::Note { what: "main-never-ended", a: 0, b: 0 });
+    let wait = async {
+        while !finished() {
+            main_done.notified().await;
+        }
+    };
+    if tokio::time::timeout(Duration::from_millis(HOUR_MS), wait).await.is_err() {
+        gave_up.notify_one();
     }
-    finalize_world();
-    log(Ev::Note { what: "scenario-over", a: 0, b: 0 });
-    drop(wx);
-    drop(cli_config);
-    drop(state);
 }
 
 fn silence_stderr() {
@@ -298,5 +325,5 @@ pub fn execute(scn: &E3Scn, policy: Policy, sched_seed: u64) -> RunOut {
     watchexec::verif::set_hash_seed(0);
     let args = parsed_args(&scn.argv());
     let scn = scn.clone();
-    run_sim(policy, sched_seed, SimOpts { enable_io: true }, move || e3_root(scn, args))
+    run_sim_main(policy, sched_seed, SimOpts { enable_io: true }, move || e3_root(scn, args))
 }
